@@ -860,3 +860,77 @@ func runCloseReleases(c *Ctx) {
 		"QUICStream.Close closes the sending side only: the wrapper refuses reads after Close, so the peer's FIN is never consumed and the incoming stream keeps its slot of MaxIncomingStreams for the life of the connection - "+
 			"the receiver's side of the authentication stream is closed that way, and with --quic-max-incoming-streams 2 authentication plus control leave no room for a data stream")
 }
+
+func init() {
+	Register(&Rule{
+		Name:  "R-LEGACY-READ-ERR",
+		Props: []string{"C02"},
+		Min:   1,
+		Doc: "the single-stream chunk receiver does not report a stripe as received past a failed read (F65): the reader goroutine reports its error and closes the chunk channel in one go, so behind the label the main loop leaves through, " +
+			"the error channel is looked at again before the successful return - otherwise a data stream that ended in the middle of a file is acknowledged (with resume metadata attached nothing else compares what arrived with the file size)",
+		Run: runLegacyReadErr,
+	})
+}
+
+func runLegacyReadErr(c *Ctx) {
+	p := c.P
+	f := p.Func("transfer.receiveFileChunksWindowed")
+	if f == nil {
+		c.MissingAnchor("transfer.receiveFileChunksWindowed")
+		return
+	}
+	info := f.Info()
+	// the channel the reader's error travels on: sent to inside a nested literal, with a value of type error
+	var errCh types.Object
+	for _, k := range allKids(f) {
+		if k == f {
+			continue
+		}
+		ast.Inspect(k.Body, func(m ast.Node) bool {
+			if ss, ok := m.(*ast.SendStmt); ok {
+				if t := k.Info().TypeOf(ss.Value); t != nil && isErrorType(t) {
+					if o := ObjOf(k.Info(), ss.Chan); o != nil && strings.Contains(strings.ToLower(o.Name()), "read") {
+						errCh = o
+					}
+				}
+			}
+			return true
+		})
+	}
+	var label *ast.LabeledStmt
+	InspectNoLits(f.Body, func(m ast.Node) bool {
+		if ls, ok := m.(*ast.LabeledStmt); ok && label == nil {
+			label = ls
+		}
+		return true
+	})
+	if errCh == nil || label == nil {
+		c.Unknown("legacy-read-err/anchors", f.Pos(), "cannot find the reader's error channel / the label the chunk loop leaves through")
+		return
+	}
+	n := 0
+	InspectNoLits(f.Body, func(m ast.Node) bool {
+		ret, ok := m.(*ast.ReturnStmt)
+		if !ok || len(ret.Results) != 2 || ret.Pos() < label.Pos() {
+			return true
+		}
+		if tv := info.Types[ret.Results[1]]; !tv.IsNil() {
+			return true
+		}
+		n++
+		looked := false
+		InspectNoLits(f.Body, func(x ast.Node) bool {
+			if u, ok := x.(*ast.UnaryExpr); ok && u.Op == token.ARROW && ObjOf(info, u.X) == errCh && u.Pos() > label.Pos() && u.Pos() < ret.Pos() {
+				looked = true
+			}
+			return true
+		})
+		c.Check(looked, fmt.Sprintf("legacy-read-err/return#%d", n), ret.Pos(), "the reader's error is collected between the loop's exit and the successful return",
+			"receiveFileChunksWindowed returns success behind `"+label.Label.Name+":` without looking at the reader's error channel again: the reader reports a failed read and closes the chunk channel together, the loop's select can take the closed channel first, "+
+				"and a data stream that ended in the middle of a file is acknowledged as received - the legacy multi-stream receiver then returns nil with chunks missing")
+		return true
+	})
+	if n == 0 {
+		c.Bad("legacy-read-err/none", f.Pos(), "receiveFileChunksWindowed has no successful return behind its exit label")
+	}
+}
